@@ -23,6 +23,7 @@ static ssize_t verif_write(int fd, const void *buf, size_t n);
 static uint8_t ghost[NBUF + 1];
 static size_t ghost_n;
 static int calls, hard_seen, zero_seen, bad_args;
+static int block_mode;	/* h_write_block: several buffers in a row, only the byte count is tracked */
 static const uint8_t *exp_buf;
 static size_t exp_size;
 static int exp_fd;
@@ -36,6 +37,18 @@ static ssize_t verif_write(int fd, const void *buf, size_t n)
 	V_ASSUME(calls < BCALLS);
 	calls++;
 	/* each call must present exactly the not-yet-written suffix */
+	if (block_mode) {
+		/* interrupted or short, never failing: the question is what the caller's
+		 * accounting makes of the fragmentation */
+		if (vn_range(0, 1) == 0) {
+			errno = EINTR;
+			return -1;
+		}
+		size_t kb = (size_t)vn_range(1, NBUF + 16);
+		V_ASSUME(kb <= n);
+		ghost_n += kb;
+		return (ssize_t)kb;
+	}
 	if (fd != exp_fd || (const uint8_t *)buf != exp_buf + ghost_n || n != exp_size - ghost_n)
 		bad_args = 1;
 	unsigned kind = (unsigned)vn_range(0, 3);
@@ -98,4 +111,29 @@ void h_write_all(void)
 	V_WITNESS();
 }
 
-V_MAIN(V_E(h_write_all))
+/* _mtbl_writer_write_block(): the byte count it reports feeds pending_offset, the
+ * index entries and the trailer, i.e. file CONTENT; it must be the number of bytes
+ * appended whatever write(2) returned on the way (length varint, crc, data). */
+void h_write_block(void)
+{
+	uint8_t data[NBUF];
+	struct data_block b;
+	vn_bytes(data, NBUF);
+	b.comp_type = MTBL_COMPRESSION_NONE;
+	b.comp_level = 0;
+	b.data = data;
+	b.len_data = (size_t)vn_range(1, NBUF);
+	b.last_key = NULL;
+	b.len_last_key = 0;
+	b.crc = (uint32_t)vn_range(0, 0xffffffffu);
+	block_mode = 1;
+	errno = (int)vn_range(0, 133);
+
+	size_t r = _mtbl_writer_write_block((int)vn_range(0, 1000), &b);
+
+	V_ASSERT(ghost_n == 1 + sizeof(uint32_t) + b.len_data, "C20: length varint, crc and data all reach the file");
+	V_ASSERT(r == ghost_n, "C20: the byte count used for offsets equals the bytes appended, however write(2) fragmented them");
+	V_WITNESS();
+}
+
+V_MAIN(V_E(h_write_all), V_E(h_write_block))
